@@ -71,6 +71,10 @@ and tr_s tr =
       | TWrite (p, n) -> Printf.sprintf " w%d:%d" (int_of_z p) (int_of_z n)
       | TRead (p, n) -> Printf.sprintf " r%d:%d" (int_of_z p) (int_of_z n)) tr)
 
+(* A file holds several independent datasets: every dataset has its own specification array and its own model
+   state; V/B/W/R/G address the current one, M (fill mode, a file-level flag) and C (close + reopen) reach all. *)
+type ds = { mutable sa : arr; mutable mm : mstate; w : int; rank : int }
+
 let () =
   let ic = if Array.length Sys.argv > 1 then open_in Sys.argv.(1) else stdin in
   let buf = Buffer.create 65536 in
@@ -78,45 +82,61 @@ let () =
   toks := List.filter (fun s -> s <> "") (String.split_on_char ' '
             (String.concat " " (String.split_on_char '\n' (Buffer.contents buf))));
   let out = Buffer.create 65536 in
-  let flush_hist hdr ops =
-    match hdr with
-    | None -> ()
-    | Some (rank, nt, unlim, dims) ->
-      let w = match nt_size (z_of_int nt) with Some s -> int_of_z s | None -> 1 in
-      let ops = List.rev ops in
-      let a = s_init dims unlim (default_fill (z_of_int nt)) in
-      let souts = s_run a ops in
-      let mouts = m_run (m_init dims unlim (z_of_int nt)) ops in
-      Buffer.add_string out "S H\nM H\n";
-      List.iter2 (fun s m ->
-          Buffer.add_string out ("S " ^ show_sout w s ^ "\n");
-          Buffer.add_string out ("M " ^ show_mout w m ^ "\n")) souts mouts;
-      Buffer.add_string out "S E\nM E\n"
-  in
-  let hdr = ref None and ops = ref [] and rank = ref 0 in
+  let dss : ds array ref = ref [||] and cur = ref 0 and nofill = ref false and recsize = ref Z0 in
+  let emit s m = Buffer.add_string out ("S " ^ s ^ "\nM " ^ m ^ "\n") in
+  let new_ds () =
+    let r = next_int () in let nt = next_int () in let u = next_int () in
+    let dims = zvec r in
+    let w = match nt_size (z_of_int nt) with Some s -> int_of_z s | None -> 1 in
+    let d = { sa = s_init dims (u <> 0) (default_fill (z_of_int nt));
+              mm = m_set_recsize (m_init dims (u <> 0) (z_of_int nt)) !recsize; w = w; rank = r } in
+    (* a dataset created while the file is in no-fill mode starts in that mode *)
+    if !nofill then begin
+      d.sa <- fst (s_step d.sa (OpMode (z_of_int 256)));
+      d.mm <- fst (m_step d.mm (OpMode (z_of_int 256)))
+    end;
+    d in
+  let step_cur o =
+    let d = (!dss).(!cur) in
+    let (a', so) = s_step d.sa o in
+    let (m', mo) = m_step d.mm o in
+    d.sa <- a'; d.mm <- m';
+    emit (show_sout d.w so) (show_mout d.w mo) in
+  let step_all o =
+    Array.iteri (fun i d ->
+        let (a', so) = s_step d.sa o in
+        let (m', mo) = m_step d.mm o in
+        d.sa <- a'; d.mm <- m';
+        if i = !cur then emit (show_sout d.w so) (show_mout d.w mo)) !dss in
   (try
      while true do
        match next () with
-       | "H" ->
-         let r = next_int () in let nt = next_int () in let u = next_int () in
-         let dims = zvec r in
-         rank := r; hdr := Some (r, nt, u <> 0, dims); ops := []
-       | "M" -> ops := OpMode (z_of_int (next_int ())) :: !ops
-       | "V" -> ops := OpFillv (z_of_hex (next ())) :: !ops
-       | "B" -> ops := OpBlock (z_of_int (next_int ())) :: !ops
+       | "H" -> nofill := false; recsize := Z0; dss := [| new_ds () |]; cur := 0; emit "H" "H"
+       | "D" -> let d = new_ds () in dss := Array.append !dss [| d |]; cur := Array.length !dss - 1; emit "D" "D"
+       | "S" -> cur := next_int (); emit "S" "S"
+       | "M" -> let m = next_int () in
+         if m = 0 then nofill := false else if m = 256 then nofill := true;
+         step_all (OpMode (z_of_int m))
+       | "V" -> step_cur (OpFillv (z_of_hex (next ())))
+       | "B" -> step_cur (OpBlock (z_of_int (next_int ())))
        | "W" ->
+         let rank = (!dss).(!cur).rank in
          let us = next_int () in
-         let st = zvec !rank in let sd = zvec !rank in let ct = zvec !rank in
+         let st = zvec rank in let sd = zvec rank in let ct = zvec rank in
          let n = next_int () in
          let vals = List.map z_of_hex (take n) in
-         ops := OpWrite (us <> 0, st, sd, ct, vals) :: !ops
+         step_cur (OpWrite (us <> 0, st, sd, ct, vals))
        | "R" ->
+         let rank = (!dss).(!cur).rank in
          let us = next_int () in
-         let st = zvec !rank in let sd = zvec !rank in let ct = zvec !rank in
-         ops := OpRead (us <> 0, st, sd, ct) :: !ops
-       | "G" -> ops := OpInfo :: !ops
-       | "C" -> ops := OpReopen :: !ops
-       | "E" -> flush_hist !hdr !ops; hdr := None; ops := []
+         let st = zvec rank in let sd = zvec rank in let ct = zvec rank in
+         step_cur (OpRead (us <> 0, st, sd, ct))
+       | "G" -> step_cur OpInfo
+       | "C" -> nofill := false; step_all OpReopen;
+         (* NC_computeshapes at open: handle->recsize = sum of the lengths of the file's record variables *)
+         recsize := file_recsize (Array.to_list (Array.map (fun d -> d.mm) !dss));
+         Array.iter (fun d -> d.mm <- m_set_recsize d.mm !recsize) !dss
+       | "E" -> emit "E" "E"
        | t -> failwith ("bad token " ^ t)
      done
    with End_of_file -> ());
